@@ -582,6 +582,10 @@ func (x *pexec) doParse(op *Op, wrapped bool) string {
 			// a wrapped parser that panics or spins has not streamed the reader
 			x.libPanic(name, pn, hang, "C16", "C08")
 		}
+		if x.nilSeen {
+			// blocks parsed after a skip must remain correct: no block at all is not
+			x.libPanic(name+" after Parse(nil)", pn, hang, "C16", "C14")
+		}
 		x.libPanic(name, pn, hang, "C16")
 	}
 	ob := fmt.Sprintf("%s f=%d n=%d err=%s %s", name, op.F, n, errName(err), seqString(blk))
